@@ -395,6 +395,17 @@ def oracle(ctx):
                              {"function_kind": kind, "user_function_raises_in": phase, "at_evaluation": k, "repetitions": 2},
                              {"live_tensors_gained_without_gc": grow, "still_alive_after_gc_collect": perm}, "no tensor outlives the failed call")
                     break
+    # parameters that MIX differentiable tensors with a python number and a tensor without grad (the helper that splits and
+    # re-assembles them lives on the autograd context; round-4 seed C19/10: it kept the re-assembled gradients in a buffer)
+    from xitorch.integrate import quad as quad_
+    am = torch.tensor([0.7, 1.1, 0.4], dtype=DT, requires_grad=True)
+    bm = torch.tensor([0.2, -0.3, 0.5], dtype=DT)                 # no grad
+    histories(lambda: rootfinder(lambda y, a_, c_, b_: y ** 3 + a_ * y * c_ - b_, torch.zeros(3, dtype=DT), params=(am, 2.0, bm)), [am],
+              "rootfinder:mixed-params", {"params": "(tensor with grad, python float, tensor without grad)"})
+    histories(lambda: quad_(lambda x, a_, c_, b_: torch.exp(-a_ * x) * c_ + b_ * x, 0.0, 1.0, params=(am, 2.0, bm), n=8), [am],
+              "quad:mixed-params", {"params": "(tensor with grad, python float, tensor without grad)"})
+    histories(lambda: solve_ivp(lambda t, y, a_, c_, b_: -a_ * y * c_ + b_ * t, torch.linspace(0, 1, 4, dtype=DT), torch.ones(3, dtype=DT), params=(am, 0.5, bm), method="rk4"),
+              [am], "solve_ivp:mixed-params", {"params": "(tensor with grad, python float, tensor without grad)"})
     a = torch.tensor([0.7, 1.1, 0.4], dtype=DT, requires_grad=True)
     b = torch.tensor([0.2, -0.3, 0.5], dtype=DT, requires_grad=True)
     z = torch.zeros(3, dtype=DT)
